@@ -20,6 +20,12 @@
 
 using namespace pbt;
 
+// ASan keeps every distinct allocation stack in its stack depot; rapidcheck's lazily evaluated generator trees
+// produce ever new deep stacks, which made a worker grow by ~15 KB per case (2.5 GB over a thorough run).  Short
+// allocation stacks keep the process flat at ~25 MB.  Detection is unaffected (only alloc/free stacks in a report
+// are shorter).  Keys given in the ASAN_OPTIONS environment variable still take precedence.
+extern "C" const char *__asan_default_options() { return "malloc_context_size=5:quarantine_size_mb=32"; }
+
 static const int MAXT = 16;
 
 // ---- case encoding ----------------------------------------------------------
